@@ -47,27 +47,32 @@ Proof.
 Qed.
 End Generic.
 
-(* the call returns whenever the loop body runs at least once and proximal_operator accepts (n_const, order);
-   order = None counts as 0 (repaired code, /repo a5b9e5b) *)
+(* the call returns for EVERY n_iter_max when proximal_operator accepts (n_const, order) -- order = None counts as 0 (repaired code,
+   /repo a5b9e5b) -- and for n_iter_max = 0 whatever they are (repaired code, /repo fe4edf7: x_split = x^T is bound before the loop) *)
 Theorem admm_returns {F} (Op : fops F) solve n_const order k UtM UtU x dual m r n tol :
-  n <> 0%nat ->
-  (n_const = None \/ exists nc, n_const = Some nc /\ (order_eff order < nc)%nat) ->
+  (n = 0%nat \/ n_const = None \/ exists nc, n_const = Some nc /\ (order_eff order < nc)%nat) ->
   exists t, admm Op solve n_const order k UtM UtU x dual m r n tol = Ok t.
 Proof.
-  intros Hn H. destruct n as [|n]; [congruence|]. destruct H as [-> | (nc & -> & Ho)].
+  intros H. destruct n as [|n]; [cbn; eexists; reflexivity|]. destruct H as [H | [-> | (nc & -> & Ho)]]; [discriminate | |].
   - cbn. eexists; reflexivity.
-  - unfold admm, admm_with, prox_call. apply Nat.ltb_lt in Ho. rewrite Ho.
-    destruct (admm_loop_ran Op solve (apply_constr Op k) UtM UtU m r tol n x None dual) as (xf & xsf & df & ->).
+  - unfold admm, admm_gen, prox_call. apply Nat.ltb_lt in Ho. rewrite Ho.
+    destruct (admm_loop_ran Op solve (apply_constr Op k) UtM UtU m r tol n x (Some (mtranspose Op r x)) dual) as (xf & xsf & df & ->).
     eexists; reflexivity.
 Qed.
+Theorem admm_zero_iterations {F} (Op : fops F) solve n_const order k UtM UtU x dual m r tol :
+  admm Op solve n_const order k UtM UtU x dual m r 0 tol = Ok (x, mtranspose Op r x, dual).
+Proof. reflexivity. Qed.
+Theorem admm_zero_iterations_raised_before {F} (Op : fops F) solve n_const order k UtM UtU x dual m r tol :
+  admm_before_fe4edf7 Op solve n_const order k UtM UtU x dual m r 0 tol = Err.
+Proof. reflexivity. Qed.
 
-(* ... and raises in every other case: no iteration (x_split unbound), or an order out of range *)
+(* ... and raises in the one remaining case: at least one iteration and an order out of range (IndexError, as it should) *)
 Theorem admm_raises {F} (Op : fops F) solve n_const order k UtM UtU x dual m r n tol :
-  n = 0%nat \/ (exists nc, n_const = Some nc /\ (nc <= order_eff order)%nat) ->
+  n <> 0%nat -> (exists nc, n_const = Some nc /\ (nc <= order_eff order)%nat) ->
   admm Op solve n_const order k UtM UtU x dual m r n tol = Err.
 Proof.
-  intros [-> | (nc & -> & Ho)]; [reflexivity|]. destruct n as [|n]; [reflexivity|].
-  unfold admm, admm_with, prox_call. apply Nat.ltb_ge in Ho. now rewrite Ho.
+  intros Hn (nc & -> & Ho). destruct n as [|n]; [congruence|].
+  unfold admm, admm_gen, prox_call. apply Nat.ltb_ge in Ho. now rewrite Ho.
 Qed.
 
 (* order = None IS order = 0 (the two lines added by /repo a5b9e5b); before, the same call raised *)
@@ -345,16 +350,16 @@ Theorem admm_unconstrained_bound nc o tol n x d : (o < nc)%nat -> n <> 0%nat ->
   wfm m r x -> wfm m r d -> allz d ->
   exists x' xs' d',
     admm Rops solve (Some nc) (Some o) (KNone) UtM UtU x d m r n tol = Ok (x', xs', d') /\
-    (x', Some xs', d') = admm_iter n x None d /\
+    (x', Some xs', d') = admm_iter n x (Some (mtranspose Rops r x)) d /\
     wfm m r x' /\ allz d' /\
     forall c, (c < m)%nat -> ((mu + rho)^2)^n * err2 x' c <= (rho^2)^n * err2 x c.
 Proof.
   intros Ho Hn Wx Wd Zd. destruct n as [|n]; [congruence|].
-  unfold admm, admm_with, prox_call. cbn [order_eff]. apply Nat.ltb_lt in Ho. rewrite Ho.
+  unfold admm, admm_gen, prox_call. cbn [order_eff]. apply Nat.ltb_lt in Ho. rewrite Ho.
   change (apply_constr Rops KNone) with idp.
-  destruct (admm_loop_ran Rops solve idp UtM UtU m r tol n x None d) as (xf & xsf & df & E). rewrite E.
+  destruct (admm_loop_ran Rops solve idp UtM UtU m r tol n x (Some (mtranspose Rops r x)) d) as (xf & xsf & df & E). rewrite E.
   rewrite admm_id_runs_all in E.
-  destruct (iter_contract (S n) x None d Wx Wd Zd) as (I1 & I2 & I3 & I4). cbv zeta in *. rewrite E in *. cbn [fst snd] in *.
+  destruct (iter_contract (S n) x (Some (mtranspose Rops r x)) d Wx Wd Zd) as (I1 & I2 & I3 & I4). cbv zeta in *. rewrite E in *. cbn [fst snd] in *.
   exists xf, xsf, df. split; [reflexivity | split; [reflexivity | split; [exact I1 | split; [exact I3 | exact I4]]]].
 Qed.
 
@@ -409,9 +414,9 @@ Theorem admm_unconstrained_bound_any_dual nc o tol n x d : (o < nc)%nat ->
     forall c, (c < m)%nat -> ((mu + rho)^2)^n * err2 x' c <= (rho^2)^n * err2 x1 c.
 Proof.
   intros Ho Wx Wd. cbv zeta.
-  unfold admm, admm_with, prox_call. cbn [order_eff]. apply Nat.ltb_lt in Ho. rewrite Ho.
+  unfold admm, admm_gen, prox_call. cbn [order_eff]. apply Nat.ltb_lt in Ho. rewrite Ho.
   change (apply_constr Rops KNone) with idp.
-  destruct (admm_loop_ran Rops solve idp UtM UtU m r tol n x None d) as (xf & xsf & df & E). rewrite E.
+  destruct (admm_loop_ran Rops solve idp UtM UtU m r tol n x (Some (mtranspose Rops r x)) d) as (xf & xsf & df & E). rewrite E.
   rewrite admm_id_runs_all in E. cbn [admm_iter] in E.
   pose proof (body_shape x d Wx Wd) as (W1 & _ & W3). pose proof (body_id_dual x d) as Z1. cbv zeta in *.
   set (b := admm_body Rops solve idp UtM UtU m r x d) in *.
@@ -604,10 +609,12 @@ Proof.
   destruct (admm_stop Rops m tol x x' xs' d'); [exact B | now apply IH].
 Qed.
 Theorem admm_nonneg_returns_nonneg (solve : mat -> mat -> mat) nc order UtM UtU x dual m r n tol x' xs' d' :
+  (n <> 0%nat \/ nonnegm x) ->
   admm Rops solve (Some nc) order (KNonneg) UtM UtU x dual m r n tol = Ok (x', xs', d') -> nonnegm x'.
 Proof.
-  destruct n as [|n]; [discriminate|]. unfold admm, admm_with. destruct (prox_call Rops (Some nc) order KNonneg x); [|discriminate].
-  pose proof (admm_loop_ran Rops solve (apply_constr Rops KNonneg) UtM UtU m r tol n x None dual) as (xf & xsf & df & E).
+  intros Hn. destruct n as [|n]; [destruct Hn as [C|Hx]; [congruence|]; cbn; intros H; injection H as <- _ _; exact Hx|]. clear Hn.
+  unfold admm, admm_gen. destruct (prox_call Rops (Some nc) order KNonneg x); [|discriminate].
+  pose proof (admm_loop_ran Rops solve (apply_constr Rops KNonneg) UtM UtU m r tol n x (Some (mtranspose Rops r x)) dual) as (xf & xsf & df & E).
   rewrite E. intros H. injection H as <- <- <-.
   (* the first body already yields a non-negative x; the rest of the loop preserves it *)
   cbn [admm_loop] in E.
